@@ -315,3 +315,58 @@ class SP_spin_tables(_SPObj):
         g.eq('spinCustom leaves the top pose unchanged' + z, sp.getTopT().gTM(), Mt0, tol=5e-6)
         if not z:
             self.coherent(g, sp, sp.getBottomT().gTM(), sp.getTopT().gTM(), 'after spinCustom')
+
+
+def _fk_probes():
+    out = []
+    goals = [(0.0, 0.0, 0.0, 0.2, -0.15, 0.1), (0.1, -0.05, 0.05, 0.1, 0.2, -0.1), (-0.12, 0.08, -0.08, -0.2, 0.05, 0.25),
+             (0.0, 0.15, 0.1, 0.0, 0.0, 0.28)]
+    for spin in (0.0, 0.6, -1.1):
+        for mode in (0.0, 1.0):
+            for k, gl in enumerate(goals):
+                if (k + int(spin * 10) + int(mode)) % 2 and spin != 0.6:
+                    continue        # thin out: every goal at spin 0.6, every other one elsewhere
+                out.append(dict(spin=spin, mode=mode, moved=float(k % 2), gx=gl[0], gy=gl[1], gz=gl[2], rx=gl[3], ry=gl[4], rz=gl[5]))
+    return out
+
+
+@register
+class SP_FK_inverts_IK_probes(SPC):
+    """BOUNDED native stand-in (probes; never counted as proved): forward kinematics of the IK lengths of an in-workspace
+    pose, started from the neutral pose, recovers the pose and reports the requested lengths -- both FK solvers,
+    platforms at the origin and moved, re-spun by 0 / 0.6 / -1.1 rad.  Convergence of Newton-Raphson / fsolve is outside
+    the reach of contracts (DESIGN section 5); this runs the listed inputs on the native code only."""
+    prop = 'C09'
+    target = SPM + ':SP.FK'
+    tol = 1e-3
+    probes = _fk_probes()
+    shape_bound = 'probes: %d listed (geometry, spin, solver, pose) inputs on the native code' % len(probes)
+
+    def run(self, g, fn, args, kwargs):
+        v = {k: g.real(k, lo=-2.0, hi=2.0) for k in ('spin', 'mode', 'moved', 'gx', 'gy', 'gz', 'rx', 'ry', 'rz')}
+        if g.mode != 'concrete':
+            return None
+        spm = g.module(SPM)
+        tm = g.module(TMM).tm
+        base = tm([0.4, -0.3, 0.2, 0.1, -0.2, 0.3]) if v['moved'] > 0.5 else tm()
+        sp = spm.newSP(1.0, 0.6, 12, 20, 0.05, 0.04, 1, 1, 1, 1, 0.2, 0.2, 1.0, 1.8, base, 'probe')
+        if abs(v['spin']) > 0:
+            sp.spinCustom(float(v['spin']))
+        h = sp._nominal_height
+        goal = sp.getBottomT() @ tm([v['gx'], v['gy'], h * (1 + v['gz']), v['rx'], v['ry'], v['rz']])
+        sp.IK(goal)
+        if not sp.validate(True):
+            from pyvc.contract import Reject
+            raise Reject('pose outside the workspace')
+        L = _np.array(sp.getLens(), dtype=float).copy()
+        sp.IK(sp.getBottomT() @ sp._nominal_plate_transform)
+        sp.FK(L.copy(), fk_mode=int(round(v['mode'])))
+        return sp, goal, L, h
+
+    def post(self, g, out, args, kwargs):
+        if out is None:
+            g.holds('probe-only contract: %d inputs are run on the native code' % len(self.probes), len(self.probes) > 0)
+            return
+        sp, goal, L, h = out
+        g.eq('FK of the IK lengths recovers the pose (to 1e-3 of the neutral height)', sp.getTopT().gTM() / h, goal.gTM() / h)
+        g.eq('lengths reported after FK are the requested ones', _np.array(sp.getLens(), dtype=float).reshape(-1) / h, L.reshape(-1) / h)
